@@ -5,6 +5,7 @@ use std::collections::HashMap;
 mod cluster;
 mod mailbox;
 mod ratelim;
+mod shutdown;
 
 pub struct Args(HashMap<String, String>);
 impl Args {
@@ -26,6 +27,17 @@ impl Args {
     pub fn str(&self, k: &str) -> &str {
         self.0.get(k).map(|s| s.as_str()).unwrap_or("")
     }
+    /// "0:status.load,1:message.send" or plain "0,1" (label "*")
+    pub fn labelled_schedule(&self, k: &str) -> Vec<(usize, String)> {
+        self.str(k)
+            .split(',')
+            .filter(|s| !s.is_empty())
+            .map(|s| match s.split_once(':') {
+                Some((t, l)) => (t.parse().unwrap(), l.to_string()),
+                None => (s.parse().unwrap(), "*".to_string()),
+            })
+            .collect()
+    }
     pub fn list_u128(&self, k: &str) -> Vec<u128> {
         self.str(k).split(',').filter(|s| !s.is_empty()).map(|s| s.parse().unwrap()).collect()
     }
@@ -45,6 +57,7 @@ fn main() {
         "ratelim_refresh" => ratelim::refresh(&args),
         "ratelim_window" => ratelim::window(&args),
         "mailbox" => mailbox::run(&args),
+        "shutdown" => shutdown::run(&args),
         "typegate" => mailbox::typegate(&args),
         "elect" => cluster::elect(&args),
         "elect_search" => cluster::elect_search(&args),
